@@ -74,7 +74,7 @@ REQUIRED = {'mul_scalar-value': 60, 'mul_scalar-form': 60, 'norm-value': 60,
     'orth-tensor': 60, 'orth-probe': 60, 'accuracy-value': 40,
     'accuracy-saturation': 20, 'truncate-finite': 30, 'truncate-error': 30,
     'agree-plain': 30, 'pow2-mul_scalar': 40, 'pow2-norm': 40,
-    'pow2-orth': 20, 'narrow-int-exact': 20}
+    'pow2-orth': 20, 'narrow-int-exact': 20, 'truncate-absolute': 100}
 REQUIRED_EVENTS = {'beyond-double-range': 40, 'd>=1000': 8,
     'acc-saturated-high': 3, 'acc-minus-one': 3,
     'truncate-rank-lowered': 10, 'truncate-d>=1000': 2,
@@ -1057,6 +1057,8 @@ def run_case(case, ctx):
 
     if not edge and d <= 50 and rng.random() < 0.5:
         narrow_int_long_modes(ctx, teneva, rng)
+    if not edge and d <= 300:
+        unorth_truncate(ctx, teneva, rng)
 
     # power-of-two metamorphic tests (core families only: an edge family is
     # outside the range where every local product is exact under scaling)
@@ -1158,6 +1160,67 @@ def outer_truncate(ctx, teneva, rng):
             judge_truncate(ctx, T, NT, sTT, Z, e, is_eigh,
                 ('truncate-finite', 'truncate-error'), what, None)
     ctx.event('outer-product-truncate')
+
+
+def unorth_truncate(ctx, teneva, rng):
+    """truncate(orth=False): the accuracy e is ABSOLUTE (no orthogonalisation,
+    no norm is taken).  The input is built left-orthogonal here (own QR), so
+    the right-to-left sweep drops at most e per bond: ||Z - Y|| <=
+    e sqrt(d-1), whatever the scale of the tensor, with and without
+    stabilisation, and the two results denote the same tensor up to that."""
+    d = int(rng.integers(2, 6))
+    n = [int(rng.integers(2, 5)) for _ in range(d)]
+    rr = int(rng.integers(2, 4))
+    r = [1]
+    for k in range(d - 1):
+        r.append(min(rr, r[-1] * n[k], int(np.prod(n[k + 1:]))))
+    r.append(1)
+    T = []
+    for k in range(d - 1):
+        Q, _ = np.linalg.qr(rng.normal(size=(r[k] * n[k], r[k + 1])))
+        T.append(np.ascontiguousarray(Q.reshape(r[k], n[k], r[k + 1])))
+    sh = int(rng.choice([-1, 1])) * int(rng.integers(8, 45))
+    q = r[d - 1]
+    sig = np.ldexp(10.0 ** (-3. * np.arange(q)), sh)      # 1, 1e-3, 1e-6
+    U, _ = np.linalg.qr(rng.normal(size=(q, q)))
+    V, _ = np.linalg.qr(rng.normal(size=(n[-1], min(q, n[-1]))))
+    m = V.shape[1]
+    T.append(((U[:, :m] * sig[:m]) @ V.T).reshape(q, n[-1], 1))
+    sig = sig[:m]
+    # e in a gap of the spectrum of the last unfolding (never at a tie)
+    j = int(rng.integers(0, m))
+    e = float(sig[j] * (10 ** -1.5))
+    A = ref.dense_ld(T)
+    nT = float(np.sqrt(np.sum(A * A)))
+    res = {}
+    for is_eigh in (True, False):
+        floor = np.sqrt(50. * d * EPS) if is_eigh else 50. * d * EPS
+        bound = e * np.sqrt(d - 1) * (1 + 1e-6) + floor * nT
+        for stab in (False, True):
+            what = (f'truncate(e={e:.3g}, orth=False, use_stab={stab}, '
+                f'is_eigh={is_eigh}) of a left-orthogonal tensor of norm '
+                f'2^{np.log2(nT):.1f}')
+            ok, Z = call(ctx, 'truncate-absolute', None, teneva.truncate,
+                [G.copy() for G in T], e, orth=False, use_stab=stab,
+                is_eigh=is_eigh)
+            if not ok:
+                continue
+            why = ref.wellformed(Z, n, finite=True)
+            if not ctx.check('truncate-absolute', why is None, f'{what}: '
+                    f'result malformed or not finite: {why}'):
+                continue
+            D = ref.dense_ld(Z)
+            err = float(np.sqrt(np.sum((D - A) ** 2)))
+            ctx.check('truncate-absolute', err <= bound, f'{what}: ||Z - Y|| '
+                f'= {err:.3e} > e sqrt(d-1) + floor = {bound:.3e}',
+                ranks_in=r, ranks_out=ref.ranks_of(Z), spectrum=sig)
+            res[stab] = D
+        if len(res) == 2:
+            dif = float(np.sqrt(np.sum((res[True] - res[False]) ** 2)))
+            ctx.check('agree-plain', dif <= 2 * bound, 'truncate(orth=False, '
+                f'is_eigh={is_eigh}): stabilised and plain results differ by '
+                f'{dif:.3e} > {2 * bound:.3e}')
+    ctx.event('truncate-without-orthogonalisation')
 
 
 def mixed_dtypes(ctx, teneva, rng, d):
